@@ -121,6 +121,7 @@ void harness_strip(void)
 	for (i = 0; i <= FN; ++i) nm[i] = (char) fname[i];
 	for (i = 0; i < 128; ++i) hdr_bytes[i] = data[i];
 	ASSUME((u64) be32(hdr_bytes + 0x53) + (u64) be32(hdr_bytes + 0x57) + 255u <= 0xffffffffu);
+	ASSUME(mlen <= 0xffffffffu);               /* the archive format stores member lengths in 32 bits */
 	for (i = 0; i < CALLS; ++i) piece[i] = pieces[i];
 #if HSPLIT == 0
 	piece[0] = 128;
@@ -141,7 +142,9 @@ void harness_strip(void)
 		is_mac = 0; expect_pos = 0; remaining = mlen;
 	} else if (HSPLIT == 2) {
 		CHECK(!ok, "C07: a stream that ends inside the first 128 bytes of a >= 128 byte member is a failure");
+#if HSPLIT == 2
 		WITNESS("stream ends inside the envelope");
+#endif
 		return;
 	} else {
 		CHECK(ok && inner_pos == 128, "C06: exactly 128 bytes are inspected");
@@ -180,8 +183,10 @@ void harness_strip(void)
 		out_total += got;
 	}
 	CHECK(out_total <= (is_mac ? 0u : (mlen >= 128 ? 128u : 0u)) + remaining, "C06: total output never exceeds the announced length");
+#if HSPLIT != 2
 	if (is_mac && out_total == be32(hdr_bytes + 0x53) && out_total > 0 && be32(hdr_bytes + 0x57) > 0) WITNESS("data fork delivered completely, resource fork dropped");
 	if (!is_mac && mlen >= 128 && out_total > 128) WITNESS("plain file from a Mac archive passed through");
+#endif
 	if (mlen < 128 && out_total == mlen && mlen > 0) WITNESS("short member");
 	WITNESS("end");
 }
